@@ -14,15 +14,18 @@ mod rng;
 mod runner;
 mod spec;
 mod val;
+mod wcases;
 
 use runner::{replay_check, run_check, Tier};
 
 macro_rules! dispatch {
     ($id:expr, $f:ident, $($arg:expr),*) => {
         match $id {
+            "C01" => $f(&checks::c01::C01, $($arg),*),
             "C03" => $f(&checks::c03::C03, $($arg),*),
             "C04" => $f(&checks::c04::C04, $($arg),*),
             "C06" => $f(&checks::c06::C06, $($arg),*),
+            "C12" => $f(&checks::c12::C12, $($arg),*),
             "C05" => $f(&checks::c05::C05, $($arg),*),
             other => {
                 eprintln!("harness error: unknown or unclaimed property {}", other);
@@ -34,7 +37,12 @@ macro_rules! dispatch {
 
 fn main() {
     // the library's panics are caught and recorded per call; keep stderr quiet
-    std::panic::set_hook(Box::new(|_| {}));
+    let default_hook = std::panic::take_hook();
+    std::panic::set_hook(Box::new(move |info| {
+        if !harness::QUIET.with(|q| q.get()) {
+            default_hook(info);
+        }
+    }));
     let args: Vec<String> = std::env::args().collect();
     if args.len() < 2 {
         eprintln!("usage: ebml-sim <property> <quick|thorough> | replay <file> | selfcheck");
